@@ -16,8 +16,8 @@ import (
 // challenge on the way out (known finding), so the realm named by the handler is observed at the handler: prototype
 // realm x rule-level realm x which instances of the family were derived and executed before.
 type HandlerCase struct {
-	Part      string   `json:"part"` // "handlers"
-	Prototype string   `json:"prototype_realm"` // "" = not configured
+	Part      string   `json:"part"`             // "handlers"
+	Prototype string   `json:"prototype_realm"`  // "" = not configured
 	Rule      string   `json:"rule_level_realm"` // "" = no rule level configuration
 	Before    []string `json:"realms_derived_and_executed_before"`
 }
